@@ -54,6 +54,7 @@ META = {
         "loop iteration, then the probe. distinct_nontrivial = distinct terminal/saturated per-message logs."
         " Fault-overlap family (mc/fault_overlap.py): message X suffers one fault out of {pre_execute/post_execute/post_save/on_error hook, sync or async ack, result backend} x {RuntimeError, CancelledError, TimeoutError}, backend failing once, body raise/CancelledError/timeout/no-result, malformed/unknown message, broker stream error, while the healthy message Y has suspension points before, inside and after its function and the stop request may arrive at any point; for A in {1,2} and the default / when_received acknowledge point, stop disabled, followed by the saturation probe."
         " Repeated faults (mc/fault_overlap.py::repeats): the same fault k times in a row (k in 3..6; thorough up to 10) on one worker, then healthy messages - a counter, pool, budget or throttle inside the worker must not change what happens at the k-th occurrence. Followed by the saturation probe (A in {1,2})."
+        " Programmatic entry point taskiq.api.run_receiver_task restarting after 1-3 broker stream errors on an idle worker, then the probe."
     ),
     "assumptions": [
         "asyncio semantics as implemented by BaseEventLoop (only clock/selector replaced)",
@@ -126,8 +127,8 @@ class C03World(RecvWorld):
         nprobe = self.sc.get("probe", 0)
         if not nprobe or self.A is None:
             return
-        hist = range(self.n - nprobe)
-        if any(k not in self.cb_done for k in hist):
+        hist = [k for k in range(self.n - nprobe) if self.msgs[k]["kind"] != "stream_error"]
+        if any(k not in self.cb_done for k in hist) or self.next_k < self.n - nprobe:
             return
         menu = self.enabled()
         if any(e[0] != "timer" for e in menu):
@@ -215,6 +216,15 @@ def fault_family(tier: str) -> List[Dict[str, Any]]:
                     continue
                 sc["probe"] = a + 1
                 out.append(sc)
+    # the programmatic entry point (taskiq.api.run_receiver_task) restarting after broker stream errors, idle
+    # and with a message in flight, then the probe
+    for a in (1, 2):
+        for pat in (("e",), ("v", "e"), ("e", "e"), ("v", "e", "v", "e"), ("e", "v", "e", "e")):
+            # bodies finish at once: every broker error meets an idle worker (what becomes of messages in
+            # flight across a restart is outside the property's quantifier)
+            msgs = [{"kind": "stream_error"} if c == "e" else {"body": "immediate"} for c in pat]
+            out.append({"A": a, "P": 0, "N": None, "stream": "infinite", "stop": False, "level": 0, "entry": "api",
+                        "msgs": msgs, "probe": a + 1})
     # the same outcome 3..6 times in a row (a pool, a budget or a throttle inside the worker), then the probe
     for a in (1, 2):
         for sc in fo.repeats(tier, ks=(3, 4, 5, 6) if tier == "quick" else (3, 4, 5, 6, 8, 10), a=a, tail=0, overlap=(a == 2 and tier == "thorough")):
